@@ -188,6 +188,9 @@ def run(ctx):
     progs = F.c01_f1(ctx.tier)
     if quick:
         progs = rnd.sample(progs, 40)
+    # elements of the template language's own namespace under every statement subset: their tags never show
+    nsprogs = F.c01_f1("quick", tag="ns")
+    progs += rnd.sample(nsprogs, 40) if quick else nsprogs
     progs += F.c01_f2("quick", rnd)[:60 if quick else 400]
     # recovery paths: the fallback of a tal: element must not emit its tag either
     progs += [p for p in F.c13_chains("quick", rnd) if "ns" in p["fam"]][:25 if quick else 200]
